@@ -20,6 +20,9 @@ sys.path.insert(0, HERE)
 sys.setrecursionlimit(20000)
 
 from harness import core  # noqa: E402
+import logging  # noqa: E402
+logging.disable(logging.CRITICAL)
+sys.unraisablehook = lambda *a: None        # __del__ of half-built objects of abandoned paths     # the real code's log output is not an observation of any property
 
 _TARGETS = []
 _FINDINGS = []
